@@ -35,33 +35,52 @@ INSERTIONS = ["greedy_insertion", "regret_insertion", "sync_aware_insertion"]
 
 def check_writer(ctx: Ctx, f):
     cfg = cfg_of(f.node)
-    gv = GuardView(cfg)
     stores = [n for n in own_nodes(f.node) if isinstance(n, ast.Assign) and isinstance(n.targets[0], ast.Subscript) and isinstance(n.targets[0].slice, ast.Tuple) and isinstance(n.value, ast.Tuple) and len(n.value.elts) == 2]
-    ctx.require(len(stores) == 1, f"schedule store not found once in {f.qualname}")
-    st = stores[0]
-    sched = ast.unparse(st.targets[0].value)
-    j, op = [ast.unparse(e) for e in st.targets[0].slice.elts]
-    s_name, e_name = [ast.unparse(e) for e in st.value.elts]
-    blk = _enclosing_block(f.node, st)
-    txt = [ast.unparse(x) for x in blk]
-    # machine / duration source
-    src = [x for x in blk if isinstance(x, ast.Assign) and isinstance(x.targets[0], ast.Tuple) and len(x.targets[0].elts) >= 2 and "duration" in ast.unparse(x.targets[0])]
-    m = "machine"
-    ok_src = False
-    for x in src:
-        v = ast.unparse(x.value)
-        if v == f"jobs[{j}][{op}]":
-            ok_src = True
-        elif v == "selected":
-            # selected comes from `ready`, whose tuples are built from jobs[j][next_op[j]]
-            t = ast.unparse(f.node)
-            ok_src = "machine, duration = jobs[j][next_op[j]]" in t and "ready.append((j, next_op[j], machine, duration))" in t
-    ctx.ob("C18-O1", "R28 WRITER-DISCIPLINE", f, "(machine, duration) of the stored operation come from the job table at the stored key", ok_src, "", node=st)
-    ok = f"{s_name} = max(machine_free[{m}], job_free[{j}])" in txt and f"{e_name} = {s_name} + duration" in txt
-    ctx.ob("C18-O1", "R28 WRITER-DISCIPLINE", f, "start = max(machine clock, job clock); end = start + duration", ok, "; ".join(t for t in txt if s_name in t or e_name in t)[:200], node=st)
-    ok = f"machine_free[{m}] = {e_name}" in txt and f"job_free[{j}] = {e_name}" in txt
-    ctx.ob("C18-O1", "R28 WRITER-DISCIPLINE", f, "both clocks advance to the operation's end in the same block", ok, "", node=st)
-    return st, j, op, txt
+    ctx.require(len(stores) >= 1, f"schedule store not found in {f.qualname}")
+    stores.sort(key=lambda n: n.lineno)
+    out = None
+    for st in stores:
+        j, op = [ast.unparse(e) for e in st.targets[0].slice.elts]
+        s_name, e_name = [ast.unparse(e) for e in st.value.elts]
+        blk = _enclosing_block(f.node, st)
+        # statements executed with the store: its block plus the enclosing blocks' statements before it
+        # (a store in a nested `if` still sees the assignments made just above that `if`)
+        txt = [ast.unparse(x) for x in blk]
+        outer = []
+        for n in ast.walk(f.node):
+            b = getattr(n, "body", None)
+            if isinstance(b, list):
+                for k, x in enumerate(b):
+                    if isinstance(x, ast.If) and any(y is st for y in ast.walk(x)):
+                        outer += [ast.unparse(y) for y in b[:k]]
+        seen = outer + txt
+        m = "machine"
+        ok_src = False
+        for x in [y for y in ast.walk(f.node) if isinstance(y, ast.Assign) and isinstance(y.targets[0], ast.Tuple) and "duration" in ast.unparse(y.targets[0])]:
+            v = ast.unparse(x.value)
+            if v == f"jobs[{j}][{op}]":
+                ok_src = True
+            elif v == "selected":
+                t = ast.unparse(f.node)
+                ok_src = "machine, duration = jobs[j][next_op[j]]" in t and "ready.append((j, next_op[j], machine, duration))" in t
+        tag = f"store@{'fast-path' if st is not stores[-1] else 'main'}" if len(stores) > 1 else "store"
+        ctx.ob("C18-O1", "R28 WRITER-DISCIPLINE", f, f"{tag}: (machine, duration) of the stored operation come from the job table at the stored key", ok_src, "", node=st)
+        ok = f"{s_name} = max(machine_free[{m}], job_free[{j}])" in seen and (f"{e_name} = {s_name} + duration" in seen or e_name == s_name and False)
+        ctx.ob("C18-O1", "R28 WRITER-DISCIPLINE", f, f"{tag}: start = max(machine clock, job clock); end = start + duration", ok, f"stored ({s_name}, {e_name})", node=st)
+        # both clocks advance to the stored end on every path from the store to the next scheduling step
+        sn = cfg.node_of(st)
+        clock_nodes = [cfg.node_of(x) for x in own_nodes(f.node) if isinstance(x, ast.Assign) and ast.unparse(x) in (f"machine_free[{m}] = {e_name}", f"job_free[{j}] = {e_name}")]
+        mfree = [c for c in clock_nodes if ast.unparse(c.ast).startswith("machine_free")]
+        jfree = [c for c in clock_nodes if ast.unparse(c.ast).startswith("job_free")]
+        head = sn.loop
+        escaped = False
+        for group in (mfree, jfree):
+            reach = cfg.forward(sn, avoid={c.id for c in group})
+            if not group or (head is not None and head.id in reach) or any(cfg.nodes[i].kind == "return" for i in reach):
+                escaped = True
+        ctx.ob("C18-O1", "R28 WRITER-DISCIPLINE", f, f"{tag}: both clocks advance to the operation's end before the next operation is scheduled", not escaped, "a stored operation that leaves the job or machine clock behind lets the next operation start before it ends", node=st)
+        out = (st, j, op, txt)
+    return out
 
 
 def run(ctx: Ctx):
@@ -254,7 +273,14 @@ def _t_reformat(tree):
     pass
 
 
+def _v_zero_duration_fast_path(tree):
+    g = M.find_func(tree, "_dispatch")
+    M.replace_stmt(g, lambda s: M.src_is(s, "end = start + duration"), M.stmts("if duration == 0:\n    schedule[j, op_idx] = (start, start)\n    next_op[j] += 1\n    continue\nend = start + duration"))
+
+
 VARIANTS = [
+    M.Variant("zero-duration fast path skips the clock updates (seed C18-A)", JS, _v_zero_duration_fast_path, "C18-O1"),
+
     M.Variant("route_removal clears one route only (original defect)", VR, _v_route_removal_original, "C18-O2"),
     M.Variant("sync_aware_insertion overwrites unassigned (original defect)", VR, _v_sync_overwrite, "C18-O2"),
     M.Variant("worst_removal edits its argument", VR, _v_no_copy, "C18-O2"),
